@@ -22,6 +22,19 @@ theorem C14_word_table :
 theorem C08_check_only_table :
     checkOnlyMethods = ["NoneMethod", "BoolMethod", "IntMethod", "StrMethod", "ListCheckOnlyMethod", "MappingCheckOnly"] := by decide
 
+/-- C08: the tests that select the pass-through / simple methods have exactly the conjuncts the model's `listSel`,
+    `mappingSel`, `objSel` + `simpleOk` encode (`o.noCopy && m.checkOnly`; `o.noCopy && k.checkOnly && v.checkOnly`;
+    `!c.hasDict && (td == o.additionalProperties) && (!td || o.noCopy) && ∀ field: checkOnly ∧ alias = name ∧ ¬fbod ∧ requiredBy = []`,
+    flattened / pattern / additional fields and validators being outside the model): dropping or adding one breaks this -/
+theorem C08_fast_path_conditions :
+    fastPathConds = [
+      ("collection", ["self.no_copy", "check_only(value_method)"], "ListCheckOnlyMethod"),
+      ("mapping", ["self.no_copy", "check_only(key_method)", "check_only(value_method)"], "MappingCheckOnly"),
+      ("object", ["not object_constraints", "not flattened_fields", "not pattern_fields", "not additional_field",
+                  "is_typed_dict(cls) == self.additional_properties", "not is_typed_dict(cls) or self.no_copy", "not validators",
+                  "all((check_only(f.method) and f.alias == f.name and (not f.fall_back_on_default) and (not f.required_by) for f in normal_fields))"],
+       "SimpleObjectMethod")] := by decide +kernel
+
 /-- C18: the 2019-09 rewrite moves `prefixItems` (row 18 repaired), hence by `C18_vocabulary` no 2020-12 array keyword
     is left at any depth of a converted schema -/
 theorem C18_vocabulary_generated :
